@@ -148,6 +148,9 @@ func (r *Result) Violate(v Violation) {
 	}
 	r.NewCount++
 	r.AddScope(v.Scope, "new_violations:"+v.Kind, 1)
+	if v.Note != "" && len(r.PerScope[v.Scope]) < 300 {
+		r.AddScope(v.Scope, "new_by_note:"+v.Kind+"|"+v.Note, 1)
+	}
 	k := v.Key()
 	if r.newSeen[k] {
 		return
@@ -156,8 +159,9 @@ func (r *Result) Violate(v Violation) {
 	if r.perScopeNew == nil {
 		r.perScopeNew = map[string]int{}
 	}
-	r.perScopeNew[v.Scope+"/"+v.Kind]++
-	if r.perScopeNew[v.Scope+"/"+v.Kind] > 6 {
+	pk := v.Scope + "/" + v.Kind + "/" + v.Note
+	r.perScopeNew[pk]++
+	if r.perScopeNew[pk] > 3 {
 		return
 	}
 	if len(r.New) < maxNew {
